@@ -93,6 +93,17 @@ def segment_strategy(weights, macros, extra=0):
         if m == 4:      # reserve several, cancel a granted one, reserve again, take in arbitrary order
             return [["rg", a % 3, 0, 0], ["rg", (a + 1) % 3, 0, 0], ["cg", b % 3], ["rg", a % 3, 0, c % 7],
                     ["get", c % 3], ["get", b % 2]]
+        if m == 6:      # several items of mixed kinds, one filtered retrieval (maybe cancelled), then plain ones
+            seg = []
+            for i in range(3 + k % 2):
+                seg.append(["rp", a % 3, 0])
+                seg.append(["put", 0, 0, (b >> i) % 3])
+            seg.append(["rg", a % 3, 0, 1 + c % 4])
+            seg.append(["cg", 0] if b % 3 == 0 else ["get", 0])
+            for i in range(3):
+                seg.append(["rg", a % 3, 0, 0])
+                seg.append(["get", 0])
+            return seg
         if m == 5:      # arrival while reservations are outstanding
             return [["rg", a % 3, 0, 0], ["rp", a % 3, 0], ["put", 0, 0, c % 3], ["adv", b % 8], ["rg", a % 3, 0, 0],
                     ["get", c % 2], ["get", 0]]
